@@ -21,6 +21,7 @@ REJECTED = [
     ("type", "res / on get -> <{ 5XX }>;\n"),
     ("recursion", "let f x = { 'n (f x) };\nres / on get -> <f num>;\n"),
     ("eval-status", "let s = 999;\nres / on get -> <status=s, {}>;\n"),
+    ("eval-status-beyond-u16", "res / on get -> <status=70000, {}>;\n"),
     ("import-missing", 'use "nosuch.oal";\nres / on get -> <>;\n'),
     ("import-cycle", 'use "main.oal";\nres / on get -> <>;\n'),
     ("annotation-yaml", "res / on get -> <num `minimum: [`>;\n"),
